@@ -88,6 +88,15 @@ CLAIMED = {
             "connection reopened with the same node object.",
             "Same assumptions as C06; identifiers are opaque tokens (data independence).",
             "DESIGN.md 4/C07"),
+    "C08": ("SCHED", "model_checking",
+            "stateless deviation-bounded schedule exploration of every (termination cause, life point, role) combination",
+            "Real node taken to 7 life points by the real handshake, 7 termination causes, both roles (29 combinations): "
+            "all at d = 0, six at d <= 1 in quick; all at d <= 1 and four at d <= 2 in thorough; at quiescence state "
+            "Closed, sockets closed and de-registered, all worker threads gone, blocked get_message() returned, no lock "
+            "held, and in the same execution a second start() with a second scripted handshake reaches Open.",
+            "Same scheduling-point and fake-network assumptions as C04/C05; threads that end by an exception during the "
+            "shutdown race count as terminated; local close() is only issued once Open.",
+            "DESIGN.md 4/C08"),
     "C09": ("ENUM", "exploration",
             "bounded-exhaustive enumeration of constructor-argument subsets against a hand-written command table",
             "All 50 typed classes (discovered by introspection) x subsets of omittable arguments (sizes 0,1,2,n "
